@@ -67,6 +67,9 @@ TAGS = {
     28: 'eta transformation (boxcox/tdist/john_draper) changes the model at eta = 0',
     29: 'add_iov changes the model at eta = 0',
     53: 'BLQ transformation (M3/M4) changes the model for observations above the LLOQ',
+    37: 'add_iov: a symbol is not its value before with eta := eta + IOV eta of the occasion (requested etas only)',
+    38: 'add_iov: an existing symbol got another assignment / a new symbol is declared twice',
+    39: 'remove_iov(add_iov(M)) is not M',
     90: 'the implementation raised an exception on a documented call',
     91: 'the implementation refused (ValueError/NotImplementedError) a valid documented request',
 }
@@ -599,6 +602,70 @@ def build_allo(spec, rng):
     return term, {'kind': 'allo', 'nparams': len(params)}
 
 
+def build_iov(spec, rng):
+    """One add_iov call of a history, probed at non-zero pairwise distinct eta values."""
+    im = impl()
+    model = load_model(spec)
+    calls = spec['calls']
+    for c in calls[:-1]:
+        model = im.fn('add_iov')(model, c['occ'], c['params'], distribution=c.get('distribution', 'disjoint'))
+    last = calls[-1]
+    after = im.fn('add_iov')(model, last['occ'], last['params'], distribution=last.get('distribution', 'disjoint'))
+    occ = last['occ']
+    levels = sorted({int(float(x)) for x in model.dataset[occ].unique()})
+    # requested etas: the IIV etas in the full expression of each requested parameter (documented: parameter names
+    # or eta names), in request order
+    iiv = [n for n in model.random_variables.iiv.names]
+    params = last['params']
+    flat = [q for grp in params for q in grp] if params and isinstance(params[0], list) else list(params)
+    req = []
+    for P in flat:
+        if P in model.random_variables.names:
+            cand = [P]
+        else:
+            # "parameter names": the IIV etas occurring in the parameter's own assignment
+            fs = {str(x) for x in model.statements.find_assignment(P).expression.free_symbols}
+            cand = [e for e in iiv if e in fs]
+            if not cand:
+                fs = {str(x) for x in model.statements.before_odes.full_expression(P).free_symbols}
+                cand = [e for e in iiv if e in fs]
+        for e in cand:
+            if e not in req:
+                req.append(e)
+    newetas = [e for e in after.random_variables.etas.names if e not in model.random_variables.etas.names]
+    byn = {}
+    for e in newetas:
+        mm = re.fullmatch(r'ETA_IOV_(\d+)_(\d+)', e)
+        if not mm:
+            return None, {'skip': f'unexpected IOV eta name {e}', 'broken': True}
+        byn.setdefault(int(mm.group(1)), {})[int(mm.group(2))] = e
+    if len(byn) != len(req) or any(sorted(d) != list(range(1, len(levels) + 1)) for d in byn.values()):
+        return None, {'skip': f'IOV etas {newetas} do not match requested etas {req} x levels {levels}', 'broken': True}
+    names = new_names()
+    before_t = stmts_term(model.statements, names)
+    after_t = stmts_term(after.statements, names)
+    removed = im.fn('remove_iov')(after, newetas)
+    removed_t = stmts_term(removed.statements, names)
+    etas_t = ct.lst([ct.pair(names.p(e), ct.lst([ct.pair(ct.q(F(lv)), names.p(byn[n][k]))
+                                                  for k, lv in enumerate(levels, 1)]))
+                     for e, n in zip(req, sorted(byn))])
+    syms = assigned(model.statements)
+    eg = EnvGen(rng, after)
+    eg.rules[occ] = [F(lv) for lv in levels]
+    for c in calls[:-1]:
+        eg.rules.setdefault(c['occ'], [F(int(float(x))) for x in sorted(model.dataset[c['occ']].unique())])
+    envs = eg.envs(names, 6)
+    alletas = list(after.random_variables.etas.names)
+    for e in envs:       # pairwise distinct non-zero integers, a different assignment at every point
+        vals = list(range(1, len(alletas) + 1))
+        rng.shuffle(vals)
+        for nm, v in zip(alletas, vals):
+            e[nm] = F(v if rng.random() < 0.7 else -v)
+    term = "(CIov (mkIov %s\n %s\n %s\n %s %s\n %s %s))" % (before_t, after_t, ct.opt(removed_t), names.p(occ), etas_t,
+                                                             ct.lst([names.p(x) for x in syms]), envs_term(envs, names))
+    return term, {'kind': 'iov', 'ncalls': len(calls), 'distribution': last.get('distribution', 'disjoint')}
+
+
 def build_rem(spec, rng):
     """remove_iiv on the statement that carries the eta: replacement rule (hand model) vs implementation."""
     import sympy
@@ -714,7 +781,7 @@ def build_cat(spec, rng):
     return term, {'kind': 'cat', 'ncats': len(cats), 'nan': any(c is None for c in cats)}
 
 
-BUILDERS = {'rem': build_rem, 'same': build_same, 'cov': build_cov, 'iiv': build_iiv, 'err': build_err, 'ruv': build_ruv, 'ode': build_ode,
+BUILDERS = {'iov': build_iov, 'rem': build_rem, 'same': build_same, 'cov': build_cov, 'iiv': build_iiv, 'err': build_err, 'ruv': build_ruv, 'ode': build_ode,
             'allo': build_allo, 'cat': build_cat}
 
 
@@ -881,6 +948,37 @@ def rem_specs(full):
     return out
 
 
+def iov_specs(full):
+    def call(occ, params, dist='disjoint'):
+        return {'occ': occ, 'params': params, 'distribution': dist}
+    hist = [
+        ([], [call('FA1', ['CL'])]),
+        ([], [call('FA1', ['CL']), call('FA1', ['VC'])]),                       # two separate calls
+        ([], [call('FA1', ['CL']), call('FA2', ['VC'])]),                       # different occasion columns
+        ([], [call('FA1', ['VC']), call('APGR', ['CL'])]),                      # 2 and 10 levels
+        ([], [call('FA1', ['CL', 'VC'], 'joint')]),
+        ([], [call('FA1', ['CL', 'VC'], 'same-as-iiv')]),
+        ([['add_iiv', 'S1', 'exp']], [call('FA1', ['S1']), call('FA2', ['CL']), call('FA1', ['VC'])]),   # after add_iiv; three calls
+        ([], [call('FA2', ['ETA_VC']), call('FA1', ['ETA_CL'], 'joint')]),      # eta names
+    ]
+    if full:
+        hist += [
+            ([], [call('FA1', [['CL'], ['VC']], 'explicit')]),
+            ([], [call('FA1', [['CL', 'VC']], 'explicit')]),
+            ([['add_iiv', 'S1', 'exp']], [call('FA1', ['CL', 'VC', 'S1']), ]),
+            ([['add_iiv', 'S1', 'exp']], [call('FA2', ['CL']), call('FA1', ['S1', 'VC'], 'joint')]),
+            ([['create_joint_distribution', ['ETA_CL', 'ETA_VC']]], [call('FA1', ['CL']), call('FA2', ['VC'], 'same-as-iiv')]),
+            ([], [call('APGR', ['VC']), call('FA1', ['CL']), ]),
+        ]
+    out = []
+    for prep, calls in hist:
+        for n in range(1, len(calls) + 1):
+            if n < len(calls) and not full and n != len(calls) - 1:
+                continue
+            out.append({'kind': 'iov', 'model': 'pheno', 'prep': prep, 'calls': calls[:n]})
+    return out
+
+
 def same_specs(full):
     out = []
     for t in ['boxcox', 'tdist', 'john_draper']:
@@ -970,6 +1068,7 @@ def all_specs(ctx):
     specs += pheno_allo_specs(full)
     specs += moxo_specs(full)
     specs += same_specs(full)
+    specs += iov_specs(full)
     specs += rem_specs(full)
     specs += cat_specs(ctx.rng, 150 if full else 40)
     specs += variant_specs(ctx.rng, 400 if full else 16)
